@@ -160,18 +160,18 @@ Theorem walkoff_code_vs_exact theta : Rabs theta <= PI / 2 ->
 Proof.
   intros Hth.
   pose proof (w_range theta) as [Hw1 Hw4].
-  pose proof (walkoff_gen_truncation (n_of no ne dx dz) theta 29500 ltac:(lra) smooth
-                (fun t _ => third_derivative_bound t)) as H.
+  pose proof (walkoff_gen_truncation (n_of no ne dx dz) theta 29500 ltac:(lra) smooth third_derivative_bound) as H.
   eapply Rle_trans; [exact H |].
-  pose proof (fd_step_pos theta) as Hh.
-  assert (Hhmax : fd_step_gen theta <= 9.52e-6).
-  { unfold fd_step_gen. destruct (Req_EM_T theta 0).
-    - unfold Rpower, eps64. interval.
-    - apply Rle_trans with (Rpower eps64 (1 / 3) * (PI / 2)).
-      + apply Rmult_le_compat_l; [left; unfold Rpower; apply exp_pos | exact Hth].
-      + unfold Rpower, eps64. interval. }
-  set (h := fd_step_gen theta) in *.
-  assert (h ^ 2 <= 9.52e-6 ^ 2) by (apply pow_incr; lra).
+  pose proof cbrt_eps_pos as Hp.
+  assert (Hm : Rmax (Rabs theta) 1 <= PI / 2) by (apply Rmax_lub; [exact Hth | pose proof PI2_1; lra]).
+  assert (Hm0 : 0 < Rmax (Rabs theta) 1) by (eapply Rlt_le_trans; [| apply Rmax_r]; lra).
+  set (hm := Rpower eps64 (1 / 3) * Rmax (Rabs theta) 1) in *.
+  assert (Hhm0 : 0 < hm) by (unfold hm; apply Rmult_lt_0_compat; assumption).
+  assert (Hhmax : hm <= 9.52e-6).
+  { apply Rle_trans with (Rpower eps64 (1 / 3) * (PI / 2)).
+    - unfold hm. apply Rmult_le_compat_l; [lra | exact Hm].
+    - unfold Rpower, eps64. interval. }
+  assert (hm ^ 2 <= 9.52e-6 ^ 2) by (apply pow_incr; lra).
   apply Rle_trans with (29500 * 9.52e-6 ^ 2 / 6).
   - unfold Rdiv. apply Rmult_le_compat; try lra.
     + apply Rmult_le_pos; [lra | apply pow2_ge_0].
@@ -224,8 +224,8 @@ Qed.
 
 Lemma walkoff_gen_const c theta : c <> 0 -> walkoff_gen (fun _ => c) theta = 0.
 Proof.
-  intros Hc. rewrite walkoff_gen_unfold. cbv zeta. pose proof (fd_step_pos theta).
-  replace (- ((c - c) / (2 * fd_step_gen theta)) / c) with 0 by (field; split; lra). apply atan_0.
+  intros Hc. destruct (walkoff_gen_unfold (fun _ => c) theta) as (h & [Hh _] & E). rewrite E.
+  replace (- ((c - c) / (2 * h)) / c) with 0 by (field; split; lra). apply atan_0.
 Qed.
 
 (* THE CLAUSE, in real arithmetic: for every uniaxial medium with 1 <= n_o, n_e <= 4, every crystal azimuth, every unit beam
